@@ -27,6 +27,11 @@ Why ==
   ELSE IF Found = {} THEN "the annotated route is missing from the document"
   ELSE LET w == OpWhy(ExpectedOp(OpRec), Ev.ops[CHOOSE i \in Found : TRUE]) IN
        IF w # "ok" THEN "the operation's " \o w \o " are not as annotated"
+       ELSE IF "companion_operation" \in OpRec.blocks
+               /\ ~\E i \in DOMAIN Ev.ops : /\ Ev.ops[i].method = Companion.method /\ Ev.ops[i].path = Companion.path
+                                            /\ Ev.ops[i].id = Companion.id /\ Ev.ops[i].tags = Companion.tags
+                                            /\ ParamMatches(Companion.param, {Ev.ops[i].params[j] : j \in DOMAIN Ev.ops[i].params})
+         THEN "the swagger:operation annotated in the same file is missing from the document or not as annotated"
        ELSE IF Ev.merge # "none" /\ ~Ev.mergedKept THEN "the input spec's own paths/definitions are lost in the merge"
        ELSE IF \E k \in ModelKinds : ModelWhy(k) # "ok" THEN ModelWhy(CHOOSE k \in ModelKinds : ModelWhy(k) # "ok")
        ELSE "ok"
